@@ -4,29 +4,77 @@
    correspondence run executes (Extract/Extract_C20.v).  They quantify over every file-system oracle
    [fs], every configuration, both variants [v] (unchanged tree / with the proposed fixes) where not
    fixed in the statement, and every list [segs] of read() results (all request bytes, all
-   segmentations, EOF, error, EAGAIN at the end).  Non-vacuity examples: Httpd/HttpdExamples.v. *)
+   segmentations, EOF, error, EAGAIN at the end).  Non-vacuity examples: Httpd/HttpdExamples.v.
+
+   What is NOT proved here (see notes/C20.md, "Not proved (tested only)"): confinement at the level of
+   the file system (symbolic links, realpath: [fs] is an opaque oracle keyed by the path string); that a
+   response is delivered completely (every Send of the model succeeds; write failures and the early
+   breaks of httpd.c are exercised only by the correspondence run); any bound on the wall-clock time of one
+   rfbHttpCheckFds - that clause is false for the code (C20_send_time_unbounded, C20_vnc_stall_refuted,
+   findings F20a/F20b); the listener/accept/replace path of rfbHttpCheckFds beyond the flag model. *)
 From Coq Require Import ZArith List Bool.
 From LV Require Import Gen.Consts_C20 Httpd.HttpdDefs Httpd.HttpdProofs Httpd.HttpdGate Httpd.HttpdSafe
-  Httpd.HttpdBody Httpd.HttpdSubst Httpd.HttpdSend Httpd.HttpdExamples.
+  Httpd.HttpdBody Httpd.HttpdSubst Httpd.HttpdSend Httpd.HttpdAudit Httpd.HttpdExamples.
 Import ListNotations.
 Local Open Scope Z_scope.
 
-(* every fopen of one httpProcessInput call is on httpDir ++ f, f starts with '/' and contains no ".." *)
-Theorem C20_confined : forall (fs : str -> option str) v cfg segs p ok,
+(* LEXICAL confinement only: every fopen of one httpProcessInput call is on the string httpDir ++ f, f starts
+   with '/' and contains no ".." (the full statement "the file opened lies below httpDir in the file system"
+   is not proved: symbolic links below httpDir are followed by fopen, and with httpDir = "" every absolute
+   path is "below" it; the correspondence oracle checks realpath on the generated trees) *)
+Theorem C20_confined_lexical : forall (fs : str -> option str) v cfg segs p ok,
   In (Open p ok) (fst (http_process fs v cfg segs)) ->
   exists f t, p = httpDir cfg ++ f /\ f = c_slash :: t /\ strstr s_dotdot f = false.
 Proof. exact confined_all. Qed.
 
+(* ... in terms of path components: f has no ".." component, hence the lexical walk from httpDir along f
+   ("" and "." stay, a name descends) never leaves httpDir: httpDir's components stay at the bottom of the
+   normalised path *)
+Theorem C20_confined_components : forall (fs : str -> option str) v cfg segs p ok,
+  In (Open p ok) (fst (http_process fs v cfg segs)) ->
+  exists f, p = httpDir cfg ++ f /\ ~ In s_dotdot (components f) /\
+            forall dirstack, exists deeper, normalise dirstack (components f) = Some (deeper ++ dirstack).
+Proof.
+  intros fs v cfg segs p ok H. destruct (confined_all fs v cfg segs p ok H) as [f [t [Hp [_ Hd]]]].
+  exists f. split; [exact Hp|]. pose proof (no_dotdot_component f Hd) as Hc. split; [exact Hc|].
+  intros st. apply normalise_stays_below. exact Hc.
+Qed.
+
 (* a GET is answered only with the contents of the file that was opened (which C20_confined places
    below httpDir): header ++ content type ++ blank line ++ file bytes, for files not subject to
-   the .vnc substitution *)
-Theorem C20_served_is_file : forall (fs : str -> option str) v cfg segs p,
+   the .vnc substitution.  FOR A PEER THAT KEEPS READING: every Send of the model succeeds; when a write fails
+   httpd.c stops early (httpd.c:559,566,573) and the peer has then received a prefix of these bytes - that
+   case is not modelled (tested only, op sreq) *)
+Theorem C20_served_is_file_reading_peer : forall (fs : str -> option str) v cfg segs p,
   In (Open p true) (fst (http_process fs v cfg segs)) -> snd (http_process fs v cfg segs) = Done ->
   exists fname content,
     p = httpDir cfg ++ fname /\ fs p = Some content /\
     (ends_with_vnc fname = false ->
      sent_bytes (fst (http_process fs v cfg segs)) = r_ok cfg ++ content_type fname ++ s_crlf ++ content).
 Proof. exact served_is_file. Qed.
+
+(* the same for names ending in ".vnc" ("/" stands for "/index.vnc") whose file fits one fread chunk: the answer
+   is header ++ content type ++ blank line ++ subst_text of the file (the function C20_substitution* are
+   about), $PARAMS standing for the formatted query of this request (C20_params_alphabet) *)
+Theorem C20_served_vnc : forall (fs : str -> option str) v cfg segs p,
+  In (Open p true) (fst (http_process fs v cfg segs)) -> snd (http_process fs v cfg segs) = Done ->
+  exists s tok content,
+    request_of segs = Some s /\ get_target s = Some tok /\
+    p = httpDir cfg ++ served_name tok /\ fs p = Some content /\
+    (ends_with_vnc (served_name tok) = true -> (length content <= chunk_len)%nat ->
+     exists text, subst_text cfg (query_params v tok) content = Some text /\
+       sent_bytes (fst (http_process fs v cfg segs)) = r_ok cfg ++ content_type (served_name tok) ++ s_crlf ++ text).
+Proof. exact served_vnc. Qed.
+
+(* a call that completes without a successful fopen (refused name, "..", over-long line, fopen failure,
+   not a GET, closed early), proxying off: close only, or 404 + close, or failed fopen + 404 + close *)
+Theorem C20_get_refused : forall (fs : str -> option str) v cfg segs,
+  proxy cfg = false -> snd (http_process fs v cfg segs) = Done ->
+  (forall p, ~ In (Open p true) (fst (http_process fs v cfg segs))) ->
+  fst (http_process fs v cfg segs) = [Close] \/
+  fst (http_process fs v cfg segs) = [Send (r_notfound cfg); Close] \/
+  exists p, fs p = None /\ fst (http_process fs v cfg segs) = [Open p false; Send (r_notfound cfg); Close].
+Proof. exact get_refused. Qed.
 
 (* a request outside the GET grammar yields only an error response or close (or, on a
    proxy-enabled server, the proxy answer): no file is opened, nothing else is sent *)
@@ -56,19 +104,29 @@ Theorem C20_proxy_gated : forall (fs : str -> option str) v cfg segs,
   proxy cfg = false -> ~ In NewRfbClient (fst (http_process fs v cfg segs)).
 Proof. exact proxy_gated. Qed.
 
-(* ... and only for CONNECT / GET requests *)
+(* ... and only for "CONNECT ...:<the RFB port>" and "GET ... /proxied.connection HTTP/1." requests
+   (Httpd.HttpdGate.proxy_request: the ':' must exist and atoi behind it equal the port; the text from
+   the first '/' on must start with the 27 bytes "/proxied.connection HTTP/1.") *)
 Theorem C20_proxy_only_on_request : forall (fs : str -> option str) v cfg segs,
   In NewRfbClient (fst (http_process fs v cfg segs)) ->
-  proxy cfg = true /\ exists s, request_of segs = Some s /\ (is_prefix s_CONNECT s = true \/ is_prefix s_GET s = true).
+  proxy cfg = true /\ exists s, request_of segs = Some s /\ proxy_request cfg s.
 Proof. exact proxy_only_on_request. Qed.
 
 (* C20_buffers_safe.  For the tree (since fix commits 057fee4 and 6ca4ce7): no buffer overrun
    (buf, fullFname, params, param_request, param_formatted, str), no read beyond a terminator, no NULL
-   dereference, no fuel exhaustion, for every request (any length, any segmentation).  display_fits:
-   the $DISPLAY text fits str[] (true for every int port since thisHost is char[255]) *)
+   dereference, no fuel exhaustion, for every request (any length, any segmentation), including the
+   terminator the .vnc path stores behind a full fread chunk (site Overflow 8: fread(buf, 1, BUF_SIZE-1);
+   buf[n] = 0 - safe because of the slack C20_FREAD_SLACK regenerated from httpd.c).  display_fits:
+   the $DISPLAY text fits str[]; discharged by C20_display_fits below *)
 Theorem C20_buffers_safe : forall (fs : str -> option str) cfg segs e,
   display_fits cfg -> snd (http_process fs v_tree cfg segs) <> Crash e.
 Proof. exact fixed_never_crashes. Qed.
+
+(* display_fits holds whenever thisHost fits its array char[255] (C20_THISHOST_SIZE, regenerated from rfb.h)
+   and the port is a TCP port or -1 *)
+Theorem C20_display_fits : forall cfg,
+  Zlength (host cfg) < C20_THISHOST_SIZE -> -1 <= port cfg <= 65535 -> display_fits cfg.
+Proof. exact display_fits_port. Qed.
 
 (* C20_proxy_safe (and the parameter parser), without any hypothesis: CONNECT / GET / '?' forms can
    never dereference NULL or read beyond a terminator; the only Crash value the tree's mirror can
@@ -111,19 +169,24 @@ Theorem C20_params_alphabet : forall v q maxb r,
              /\ Zlength r + 1 <= Z.max maxb 1.
 Proof. exact params_alphabet. Qed.
 
-(* one rfbHttpCheckFds performs at most BUF_SIZE non-blocking reads, whatever the peer does *)
-Theorem C20_no_stall : forall (fs : str -> option str) v cfg segs,
+(* one rfbHttpCheckFds performs at most BUF_SIZE read() calls, whatever the peer does.  This bounds the
+   NUMBER of reads, not time: it is a no-stall statement only together with "each read returns at once",
+   i.e. the socket being non-blocking, which is a fact about the C code checked by the harness (fcntl
+   observable of op lreq), not a theorem *)
+Theorem C20_no_stall_reads : forall (fs : str -> option str) v cfg segs,
   Z.of_nat (snd (http_process_n fs v cfg segs)) <= C20_BUF_SIZE.
 Proof. exact no_stall. Qed.
 
-(* ... and this is tied to the non-blocking flag: every socket rfbHttpCheckFds accepts - from the IPv4
-   or from the IPv6 listener - is non-blocking, hence a call on it returns (a blocking socket would
-   stall on an incomplete request: Httpd.HttpdSafe.blocking_socket_stalls) *)
-Theorem C20_accepted_nonblocking : forall l4 l6 nb s,
+(* MODEL-LEVEL (true by construction of [accept_step], which mirrors rfbHttpCheckFds setting the flag on both
+   accept paths; the theorem guards the model against an edit that drops the flag on one path, the C code is
+   guarded by the lreq correspondence): every socket the model accepts - IPv4 or IPv6 listener - is
+   non-blocking, hence a call on it returns (a blocking socket would stall on an incomplete request:
+   Httpd.HttpdSafe.blocking_socket_stalls) *)
+Theorem C20_accepted_nonblocking_model : forall l4 l6 nb s,
   accept_step l4 l6 nb = Some s -> nonblocking s = true.
 Proof. exact accepted_nonblocking. Qed.
 
-Theorem C20_no_stall_accepted : forall l4 l6 nb s (fs : str -> option str) v cfg segs,
+Theorem C20_no_stall_accepted_model : forall l4 l6 nb s (fs : str -> option str) v cfg segs,
   accept_step l4 l6 nb = Some s ->
   exists r n, http_call s fs v cfg segs = Returned r n /\ Z.of_nat n <= C20_BUF_SIZE.
 Proof. exact no_stall_accepted. Qed.
@@ -154,23 +217,48 @@ Theorem C20_substitution_other_dollar : forall cfg params pre r,
   end.
 Proof. exact substitution_other_dollar. Qed.
 
-(* C20_send_bounded: the send side.  rfbWriteExact's loop (sockets.c), for every schedule of
-   would-block / ready / time-out / error results, every length and every rfbMaxClientWait:
-   it terminates, and the virtual time spent waiting is at most one budget - time-out plus one select
-   slice - per time the peer made the socket writable again, plus one.  A client that requests a
-   large file and stops reading holds rfbHttpCheckFds for at most rfbMaxClientWait + one slice
-   (C20_send_gives_up), the slice being exactly the select() time-out (regenerated from sockets.c). *)
-Theorem C20_send_bounded : forall sched timeout slice len waited total,
+(* The send side.  rfbWriteExact's loop (sockets.c), for every schedule of would-block / ready / time-out /
+   error results, every length and every rfbMaxClientWait: it terminates, and the virtual time spent waiting
+   is at most one budget - time-out plus one select slice - PER TIME THE PEER MADE THE SOCKET WRITABLE AGAIN,
+   plus one.  The peer controls that count.
+
+   The full timing clause - "one rfbWriteExact / one rfbHttpCheckFds returns within a bound that depends on
+   rfbMaxClientWait only" -
+       forall sched ..., exists r t, wx_loop sched timeout slice len 0 0 = Some (r, t) /\ t <= budget timeout slice
+   is NOT proved and is FALSE for the code: C20_send_time_unbounded below (finding F20b), and for one response
+   made of several writes C20_vnc_stall_refuted (finding F20a). *)
+Theorem C20_send_bounded_per_period : forall sched timeout slice len waited total,
   0 < slice -> 0 <= waited -> (waited < timeout \/ waited = 0) ->
   exists r t, wx_loop sched timeout slice len waited total = Some (r, t) /\
               total <= t /\
               t - total <= Z.of_nat (count_ready sched) * budget timeout slice + budget timeout slice - waited.
 Proof. exact send_bounded. Qed.
 
-Theorem C20_send_gives_up : forall timeout slice len,
+(* ONE rfbWriteExact call to a peer that never reads again gives up after rfbMaxClientWait + at most one slice
+   (one call, not one response and not one rfbHttpCheckFds) *)
+Theorem C20_send_gives_up_one_write : forall timeout slice len,
   0 < slice -> 0 < len ->
   exists t, wx_loop [] timeout slice len 0 0 = Some (WGiveUp, t) /\ Z.max timeout 1 <= t + 0 /\ t <= Z.max timeout 0 + slice.
 Proof. exact send_gives_up. Qed.
+
+(* refutation of the timing clause (F20b): a peer that takes one byte per select slice is never given up;
+   n bytes take n slices whatever the time-out is *)
+Theorem C20_send_time_unbounded : forall timeout slice n,
+  0 < slice -> slice < timeout ->
+  exists sched, wx_loop sched timeout slice (Z.of_nat n) 0 0 = Some (WOk, Z.of_nat n * slice).
+Proof. exact send_time_unbounded. Qed.
+
+(* refutation for one response (F20a): httpd.c ignores the result of the writes of the .vnc substitution loop
+   (text before a variable, the variable's value) - only the write of a literal '$' is checked.  Counting the
+   rfbWriteExact calls that are still made after the peer has stopped reading (each waits rfbMaxClientWait):
+   the witness page "x$HEIGHTx$WIDTHx" gives 5, with notes/fix_C20_3.diff (stop at the first failure) it is
+   at most 1 for every page *)
+Theorem C20_vnc_stall_refuted :
+  blocked_writes false (subst_checks 100 (cfg_w false) [] [120;36;72;69;73;71;72;84;120;36;87;73;68;84;72;120]) = 5%nat.
+Proof. exact vnc_stall_w. Qed.
+
+Theorem C20_vnc_stall_fixed : forall checks, (blocked_writes true checks <= 1)%nat.
+Proof. exact vnc_stall_fixed. Qed.
 
 Theorem C20_send_slice_is_select_timeout : C20_WX_SLICE_MS = C20_WX_TV_SEC * 1000 /\ 0 < C20_WX_SLICE_MS.
 Proof. exact slice_is_select_timeout. Qed.
